@@ -14,7 +14,7 @@
                  (None = the printed text is not a float literal: `inf`, `NaN`
                  are identifiers, the expansion does not resolve).
    Definitions only. *)
-From Coq Require Import ZArith NArith List Bool.
+From Coq Require Import ZArith NArith List Bool Floats.
 From SV Require Import Base.Num Base.Outcome Base.Str Model.Poly Model.Parse.
 Import ListNotations.
 
@@ -104,3 +104,9 @@ Section Macro.
   Definition floats_term (t : term T) : list T := t_coef t :: map snd (t_vars t).
   Definition floats_inter (p : ipoly T) : list T := flat_map floats_term (i_terms p).
 End Macro.
+
+(* The float instance of [reread]: `{:?}` on f64 prints `inf` / `-inf` / `NaN` for the
+   non-finite values (identifiers, not literals) and otherwise a shortest-round-trip decimal
+   that rustc reads back to the same bits (assumption R2, measured). *)
+Definition float_finite (x : float) : Prop := PrimFloat.is_finite x = true.
+Definition float_reread (x : float) : option float := if PrimFloat.is_finite x then Some x else None.
